@@ -1,7 +1,7 @@
 """C03 - the writer persists each drained datapoint exactly once or accounts for it."""
 from hypothesis import strategies as st
 
-from .. import cachesim, writersim
+from .. import cachesim, memdb, writersim
 from ..hyp import run_given
 from . import c02
 
@@ -40,7 +40,7 @@ def cases(draw, strategy=None):
   nfaults = draw(st.sampled_from([0, 1, 1, 2, 3]))
   faults = {}
   for _ in range(nfaults):
-    faults[str(draw(st.integers(0, 15)))] = draw(st.sampled_from(['ioerror', 'exception']))
+    faults[str(draw(st.integers(0, 15)))] = draw(st.sampled_from(['ioerror', 'exception', 'ioerror', 'exception', 'eintr', 'eagain', 'enospc']))
   return {
     'strategy': strategy, 'lag': 0, 'recv': recv,
     'creates_per_minute': draw(st.sampled_from([None, None, 1, 60])),
@@ -71,7 +71,7 @@ def pressure_cases(draw, strategy=None):
     pos += draw(st.integers(1, 15))
     switches.append([pos, 1])
   nfaults = draw(st.sampled_from([0, 0, 1]))
-  faults = {str(draw(st.integers(0, 10))): draw(st.sampled_from(['ioerror', 'exception'])) for _ in range(nfaults)}
+  faults = {str(draw(st.integers(0, 10))): draw(st.sampled_from(['ioerror', 'exception', 'ioerror', 'exception', 'eintr', 'eagain', 'enospc'])) for _ in range(nfaults)}
   return {'strategy': strategy, 'lag': 0, 'recv': recv, 'creates_per_minute': draw(st.sampled_from([1, 1, 2])),
           'updates_per_second': draw(st.sampled_from([None, None, 50])),
           'precreated': draw(st.lists(st.sampled_from(metrics), unique=True, max_size=1)),
@@ -205,10 +205,10 @@ def execute(ctx, case):
   acc = judge(ctx, case, run)
   if acc is None:
     return
-  nfaults_hit = sum(1 for ev in run.events if ev[0] == 'call' and ev[1][4] in ('ioerror', 'exception'))
+  nfaults_hit = sum(1 for ev in run.events if ev[0] == 'call' and ev[1][4] in memdb.FAULT_KINDS)
   classes = [case['strategy']]
   for ev in run.events:
-    if ev[0] == 'call' and ev[1][4] in ('ioerror', 'exception'):
+    if ev[0] == 'call' and ev[1][4] in memdb.FAULT_KINDS:
       classes.append('fault:%s:%s' % (ev[1][1], ev[1][4]))
   for k, v in acc.items():
     if v:
